@@ -1867,6 +1867,18 @@ def check_C15(tier):
                 scenarios.append({"sid": len(scenarios) + 1, "nodes": nodes, "follow": follow, "min": mn, "max": mx, "rooted": False,
                                   "walk_from": index[start], "base": "abs", "layers": [], "tree": "links", "origin": "library", "_base_text": start,
                                   "desc": "path walk from %s in tree links, depth %s..%s, links read as %s" % (start, mn if mn > 0 else 0, mx if mx >= 0 else "inf", "targets" if follow else "files")})
+    # the walked directory given as the empty path (it is the current directory) or relative to the current directory:
+    # the bounds still count from that directory, whatever the traversal root looks like
+    nodes, index = W.tree(W.TREES["deep"])
+    for spelling in ("empty", "reldot"):
+        for g in ("a/**", "a/b/**", "**", "a/b/c/*"):
+            if spelling == "empty" and g == "**":
+                continue    # (the empty path names no directory: a walk that has to read it yields an error item and nothing else)
+            for mn, mx in ((1, -1), (2, -1), (3, -1), (-1, 1), (-1, 2), (2, 3), (1, 2), (3, 3)):
+                scenarios.append({"sid": len(scenarios) + 1, "nodes": nodes, "follow": False, "min": mn, "max": mx, "rooted": False, "glob": C.cps(g),
+                                  "walk_from": index["root"], "base": spelling, "layers": [], "tree": "deep", "origin": "library",
+                                  "desc": "glob %r over tree deep, the walked directory given as %s, depth %s..%s" % (
+                                      g, "the empty path" if spelling == "empty" else "./root", mn if mn > 0 else 0, mx if mx >= 0 else "inf")})
     pivots = W.prepare_glob_scenarios(scenarios)
     for h in scenarios:
         if h.get("glob") is None:
